@@ -2,6 +2,8 @@
 import json
 import os
 import re
+import shutil
+import time
 
 import vlib
 
@@ -35,7 +37,19 @@ TRUSTED = [
     "that they are exactly the machine's (one atomic add-and-fetch of 1 whose result names one address) — accesses through reflection, "
     "unsafe, or a whole-struct copy/assignment of an actorContext are not seen; tie T1 sub-harness 'life' (harness/cmd/c07ask/life.go): "
     "scripts with restarts / re-creation on the real ActorSystem, allocated addresses and outcomes compared with the machine's run",
-    "sync/atomic sequentially consistent single steps; xsync.MapOf LoadOrStore / LoadAndDelete atomic; Go runtime; Coq kernel + vm_compute",
+    "hand-written machine coq/C07/RegModel.v of the creation of a future (future.New -> ResourceController.Register -> futureProcess.Initialize "
+    "as separate atomic steps: LoadOrStore, f.rc, f.ref, time.AfterFunc; the timer goroutine may run immediately after it is armed = every "
+    "timeout value; Close = CAS ; close(done) ; Stop ; Unregister) PARAMETERISED by the order of the creation steps; tie T3 "
+    "(harness/translate/c07reg, go/ast, syntactic, engine/prc + engine/future of the tree under test): the operations on the process table "
+    "and the call of Initialize in Register, the assignments of the controller / the reference and the creation of the timer in Initialize, "
+    "the call of Register in New are extracted in source order to Coq and RegInstance.v proves by vm_compute that the creation order they "
+    "denote is one the release theorems hold for (order_ok) — if/else bodies are read in source order (the machine is about a fresh "
+    "address), creation steps under go/defer/loops/function literals are rejected, helper functions of other packages, reflection, unsafe and "
+    "aliases of the future are not seen; that one future lives under one fresh address is the business of the Ids/Life machines",
+    "tie T1 sub-harness 'leak' (harness/cmd/c07ask/leak.go): search oracle only — asks with 1 ns .. 3 us timeouts from 4-16 goroutines on the "
+    "real system, registry enumerated afterwards through the hook VerifResourceController + reflection (fall-back: GetProcess probes); the "
+    "interleavings are those the Go runtime happens to produce; 2 s grace before an address counts as leaked",
+    "sync/atomic sequentially consistent single steps; xsync.MapOf Load / LoadOrStore / Compute atomic; Go runtime; Coq kernel + vm_compute",
 ]
 MANIFEST = {
     "text": "Coq theorems over every schedule of two interleaving machines with an unbounded pool of goroutines. Future process "
@@ -57,15 +71,31 @@ MANIFEST = {
             "future.go is instrumented and hundreds of random (thorough: + depth-first, preemption bound 2) schedules of {reply, error "
             "reply, second reply, timeout, Close, Forward, Result} are replayed step by step in Coq; a stress harness drives the real "
             "ActorSystem (1/2/8/16 askers x 6 target behaviours x system / actor context / typed helper) and checks per ask: completes "
-            "within timeout+slack, once, with its own sequence number or the timeout or its own error reply; reply address released.",
+            "within timeout+slack, once, with its own sequence number or the timeout or its own error reply; reply address released. "
+            "Creation of a future (RegModel: New -> Register -> Initialize as separate atomic steps — publish in the registry, f.rc, f.ref, arm "
+            "the timer — in the order the machine is given, against the timer goroutine, which may run immediately after it is armed, and any "
+            "number of other Close callers): for every order in which the future is stored (once) and holds its controller and reference "
+            "before the timer is armed and before New returns — in particular the order of the source — every timeout and every schedule: no "
+            "nil dereference, every Unregister finds the future, the address is stored once and removed once, after the completion it is not "
+            "registered and never registered again; 'Initialize before publishing' is refuted by the schedule in which the timer fires "
+            "between AfterFunc and LoadOrStore (the completed future stays registered for ever), 'reference after the timer' by the nil "
+            "dereference in the timer goroutine. The creation order of the tree under test is extracted on every run (go/ast over Register, "
+            "Initialize, New) and proved to be an accepted one by vm_compute; when it is not, the implementation is searched for the refuting "
+            "schedule: 4-16 goroutines issue 10^5-10^6 asks with timeouts of 1 ns .. 3 us against a silent target (system / actor context / "
+            "future.New on the system's registry) and the registry is enumerated afterwards for reply addresses of completed asks — the same "
+            "family runs (smaller) on every run as a monitor.",
     "note": "Model = repaired code: three small defects were found and are repaired by fixes/C07-guid-atomic.patch (shared non-atomic "
             "childGuid: foreign replies and asks that never complete), fixes/C07-typed-ask.patch (typed helper delivers the unwrapped "
             "request: target sees nil, ask always times out), fixes/C07-error-reply.patch (error reply inside a MessageWrapper completes the "
             "ask successfully). Trusted: hand-written machines (correspondence checked per executed step / per observed outcome only on the "
             "schedules explored), atomics sequentially consistent, registry map operations atomic, real-time slack 1.5 s in the stress "
-            "monitors. Not covered: remote (shared/cluster) asks, AwaitForward.",
+            "monitors. The creation-order tie (c07reg) is syntactic: it reads Register / Initialize / New and inlines methods of the same "
+            "receiver; a creation step hidden in a helper of another package or done through reflection is not seen (the stress family "
+            "'leak' and T2 are the safety net). Not covered: remote (shared/cluster) asks, AwaitForward.",
     "technique": "Coq proof (counting + provenance invariants over unbounded-thread interleaving machines) + per-step schedule replay of the "
-                 "instrumented source + stress/differential harness on the real system",
+                 "instrumented source + source facts extracted by go/ast translators (id counter accesses; order of the creation steps of a "
+                 "future) proved to be the machines' by vm_compute + stress/differential harness on the real system (incl. a tiny-timeout "
+                 "registry-leak search)",
 }
 
 ATOMIC_GUID = re.compile(r"func \(ctx \*actorContext\) nextChildGuid\(\) uint64 \{\s*return atomic\.AddUint64\(&ctx\.childGuid, 1\)\s*\}")
@@ -128,6 +158,100 @@ def t3(ctx):
         ctx.discharged += 1
 
 
+LEAK_ORDER = ["SLookup", "SSetRc", "SSetRef", "SArm", "SPublish", "SSetRef"]      # MV.C07.RegModel.init_first_order
+REF_LATE_ORDER = ["SPublish", "SSetRc", "SArm", "SSetRef"]                          # MV.C07.RegModel.ref_after_timer_order
+
+
+def t3_reg(ctx):
+    """Tie T3 (creation order): extract the statements of Register / Initialize / New of the CURRENT tree that publish the future,
+    set its controller / reference and arm its timer, in source order; emit RegExtracted.v + RegInstance.v; compile them."""
+    names = ["C07_creation_order_source_facts", "C07_reply_address_released_of_this_source"]
+    ctx.obligations += len(names)
+    d = os.path.join(ctx.scratch, "t3reg")
+    os.makedirs(d, exist_ok=True)
+    try:
+        exe = vlib.go_build(ctx, "./translate/c07reg", name="c07reg")
+    except vlib.CheckError as e:
+        ctx.proof_errors.append("T3: cannot build harness/translate/c07reg: %s" % str(e)[-800:])
+        return
+    rc, o, e, _ = vlib.sh([exe, "-repo", vlib.REPO, "-out", d], timeout=120)
+    if rc != 0:
+        ctx.extra["creation_order_tie"] = "broken"
+        ctx.proof_errors.append("T3: Register / Initialize / New cannot be read from %s/engine/{prc,future}: %s" % (vlib.REPO, (o + e)[-800:]))
+        return
+    facts = json.loads(o.strip().splitlines()[-1])
+    ctx.extra["t3_creation_order"] = facts
+    out = ""
+    for f in ("RegExtracted.v", "RegInstance.v"):
+        rc, o2, e2, _ = vlib.sh(["coqc", "-Q", vlib.COQ, "MV", "-Q", d, "", os.path.join(d, f)], cwd=d, timeout=900)
+        if rc != 0:
+            ctx.extra["creation_order_tie"] = "broken"
+            order = facts.get("order")
+            witness = ""
+            if order == LEAK_ORDER:
+                witness = (" This is MV.C07.RegModel.init_first_order: C07_register_initialises_before_publishing_refuted is the refuting schedule "
+                           "(the timer fires between AfterFunc and LoadOrStore, its Close unregisters an address that is not registered yet, "
+                           "Register then stores the completed future: the reply address stays registered for ever).")
+            elif order == REF_LATE_ORDER or (order and "SArm" in order and "SSetRef" in order and order.index("SArm") < order.index("SSetRef")):
+                witness = (" The timer is armed before the future holds its reference: C07_ref_stored_after_timer_refuted is the refuting "
+                           "schedule (nil dereference in the timer goroutine).")
+            elif order and "SPublish" in order and "SArm" in order and order.index("SArm") < order.index("SPublish"):
+                witness = (" The timer is armed before the future is stored in the registry: same class as "
+                           "C07_register_initialises_before_publishing_refuted.")
+            stm = lambda evs: ["%s %s: %s%s" % (x["kind"], x["pos"], x["text"], (" [" + x["why"] + "]") if x.get("why") else "") for x in evs]
+            ctx.proof_errors.append(
+                "T3: the creation steps of a future in the tree under test are executed in the order %s, which is not one the release theorems "
+                "of MV.C07.RegProofs hold for (order_ok: before the timer is armed and before New returns the future must be stored in the "
+                "registry, once, and hold its controller and its reference; the source the theorems were stated for has %s).%s "
+                "Register: %s; Initialize: %s; New: %s. %s" %
+                (order, ["SPublish", "SSetRc", "SSetRef", "SArm", "SSetRef"], witness, stm(facts["register"]), stm(facts["initialize"]),
+                 stm(facts["new"]), (o2 + e2)[-300:].replace("\n", " ")))
+            return
+        out += o2
+    bad = vlib.FORBIDDEN.search(vlib.strip_comments(open(os.path.join(d, "RegExtracted.v")).read() + open(os.path.join(d, "RegInstance.v")).read()))
+    closed = len(re.findall(r"Closed under the global context", out))
+    if bad or closed != len(names):
+        ctx.extra["creation_order_tie"] = "broken"
+        ctx.proof_errors.append("T3 (creation order): instance theorems not closed under the global context:\n" + out[-800:])
+        return
+    ctx.extra["creation_order_tie"] = "ok"
+    for n in names:
+        ctx.theorems.append(n)
+        ctx.axioms[n] = []
+        ctx.discharged += 1
+
+
+def leak_search(ctx, budget_s=None):
+    """Failing-input search. When the creation-order tie is broken the model has the refuting schedule (a timer that fires inside
+    the creation of the future): look for it on the implementation first — the tiny-timeout family of c07ask (sub-harness 'leak') at
+    thorough volume under fresh seeds — then fall back to the generic search over every sub-harness."""
+    t0 = time.time()
+    tried = 0
+    if ctx.extra.get("creation_order_tie") == "broken" and getattr(ctx, "c07ask_binary", None):
+        budget = budget_s or (60 if ctx.tier == "quick" else 300)
+        k = 0
+        env = dict(os.environ, C07_SUBS="leak")
+        while time.time() - t0 < budget:
+            k += 1
+            outdir = os.path.join(ctx.scratch, "search_leak_%d" % k)
+            os.makedirs(outdir, exist_ok=True)
+            seed = ctx.seed + 104729 * k
+            vlib.sh([ctx.c07ask_binary, "-out", outdir, "-seed", str(seed), "-tier", "thorough", "-nocoq"],
+                    timeout=max(30, budget - (time.time() - t0) + 60), env=env)
+            sp = os.path.join(outdir, "leak_summary.json")
+            if os.path.exists(sp):
+                s = json.load(open(sp))
+                for hist in (s.get("distribution") or {}).get("ask_outcome", {}).values():
+                    tried += hist
+                for v in s.get("violations") or []:
+                    if not vlib.match_known(ctx.prop, v):
+                        v["search"] = {"seed": seed, "tier": "thorough", "family": "tiny-timeout", "asks_tried": tried}
+                        return v
+            shutil.rmtree(outdir, ignore_errors=True)
+        ctx.extra["leak_search"] = {"asks_tried": tried, "wall_s": round(time.time() - t0, 1), "found": False}
+    return vlib.default_search(ctx, budget_s)
+
+
 def check(ctx):
     ctx.trusted += TRUSTED
     try:
@@ -139,20 +263,26 @@ def check(ctx):
     if vlib.coq_make(ctx, ["Lib", "C07"]):
         vlib.coq_properties(ctx, "C07/Properties.v")
         t3(ctx)
+        t3_reg(ctx)
     source_facts(ctx)
     # T1 first: the stress harness on the real system (monitors decide; Coq recomputes the allowed outcomes); the binary
     # writes two summaries: "ask" (stress) and "life" (scripts with restarts / re-creation, see harness/cmd/c07ask/life.go)
+    # (third summary: "leak", the tiny-timeout registry-leak family, see harness/cmd/c07ask/leak.go)
     b1 = vlib.go_build(ctx, "c07ask")
+    ctx.c07ask_binary = b1
     vlib.run_harness(ctx, b1, "ask", timeout=1500)
     # T2: instrumented current source of the future process under the controlled scheduler
     b2 = vlib.t2_build(ctx, "fut", "future", FUT_SOURCES, "c07fut", rewrites=REWRITES)
     vlib.run_harness(ctx, b2, "fut", timeout=1500)
     if ctx.tier == "thorough":
         vlib.coqchk(ctx, ["MV.C07.Properties"])
-    return vlib.finish(ctx, "make -C coq && coqc C07/Properties.v (Print Assumptions per theorem); go run harness/translate/c07guid && coqc Extracted.v Instance.v "
-                            "(counter accesses of the tree under test = the machine's); read nextChildGuid of the tree under test; "
+    rc = vlib.finish(ctx, "make -C coq && coqc C07/Properties.v (Print Assumptions per theorem); go run harness/translate/c07guid && coqc Extracted.v Instance.v "
+                            "(counter accesses of the tree under test = the machine's); go run harness/translate/c07reg && coqc RegExtracted.v RegInstance.v "
+                            "(order of the creation steps of a future in the tree under test = one the release theorems hold for); "
+                            "read nextChildGuid of the tree under test; "
                             "go build harness/cmd/c07ask against the tree + run (T1); instrument + build current future.go (t2_build) + run (T2); "
-                            "coqc <outcome-table and schedule-replay shards> (vm_compute)", "DESIGN.md §6 C07", search=vlib.default_search)
+                            "coqc <outcome-table and schedule-replay shards> (vm_compute)", "DESIGN.md §6 C07", search=leak_search)
+    return rc
 
 
 def replay(ctx, path):
@@ -165,4 +295,4 @@ def replay(ctx, path):
         if err.strip():
             print(err.strip())
         return rc
-    return vlib.standard_replay(ctx, {"ask": "c07ask", "life": "c07ask"}, path)
+    return vlib.standard_replay(ctx, {"ask": "c07ask", "life": "c07ask", "leak": "c07ask"}, path)
